@@ -583,6 +583,24 @@ func c20Extract(env *core.Env, tn string, seed uint64, noContained bool) {
 				return
 			}
 		}
+		// with nested resources: those held directly (Bundle entries, Parameters) are the same protos; those in `contained`
+		// are decoded copies, found as well: the total is the number of such elements in the JSON tree
+		if hasNested {
+			total := 0
+			for _, nd := range tree.All() {
+				if nd.Msg != nil && match(nd.Msg) {
+					total++
+				}
+				if ref, ok := nd.Msg.(*dtpb.Reference); ok && kind == "String" && nd.UnderFresh() && (ref.GetUri() != nil || ref.GetFragment() != nil) {
+					total++
+				}
+			}
+			env.Cover("extract-with-nested-count")
+			if len(plain) != total+len(special) {
+				env.Violatef("C20/extract/"+cls+"/nested-count", "ExtractAll[%s] on %s(seed %d), which holds nested resources, returned %d elements; the JSON tree holds %d", kind, tn, seed, len(plain), total+len(special))
+				return
+			}
+		}
 		if !hasNested && len(plain) != len(want)+len(special) {
 			env.Violatef("C20/extract/"+cls+"/extra-elements", "ExtractAll[%s] on %s(seed %d) returned %d elements, the resource holds %d", kind, tn, seed, len(plain), len(want))
 			return
@@ -740,9 +758,10 @@ func runC20(env *core.Env) {
 	types := gen.ResourceTypes()
 	per := env.Size(1, 30)
 	for k := 0; k < per; k++ {
-		for _, md := range types {
+		for ti, md := range types {
 			if mine() {
-				c20Extract(env, string(md.Name()), env.Seed*13+uint64(k), k%4 != 3)
+				// a third of the cases may carry resources in `contained` (an Any), also in the quick tier
+				c20Extract(env, string(md.Name()), env.Seed*13+uint64(k), (k+ti)%3 != 2)
 				if k == 0 {
 					c20Extract(env, string(md.Name()), 1<<40+env.Seed, true)
 				}
